@@ -174,8 +174,12 @@ func (a *VerifC18Adm) Connected(h int) bool { return a.peers[h].Connected() }
 // Add delivers the peer to the real handleAddPeerMsg.
 func (a *VerifC18Adm) Add(h int) bool { return a.s.handleAddPeerMsg(a.state, a.peers[h]) }
 
-// Done delivers the peer to the real handleDonePeerMsg.
-func (a *VerifC18Adm) Done(h int) { a.s.handleDonePeerMsg(a.state, a.peers[h]) }
+// Done delivers the peer to the real handleDonePeerMsg.  As in production (peerDoneHandler sends
+// on donePeers only after WaitForDisconnect returned) the peer is disconnected first.
+func (a *VerifC18Adm) Done(h int) {
+	a.peers[h].Disconnect()
+	a.s.handleDonePeerMsg(a.state, a.peers[h])
+}
 
 // Ban delivers a peer object with address ip:port to the real handleBanPeerMsg.
 func (a *VerifC18Adm) Ban(ip string, port int) error {
